@@ -54,6 +54,11 @@ func main() {
 		i := strings.Index(*dump, ":")
 		f := p.Fn((*dump)[:i], (*dump)[i+1:])
 		if f == nil {
+			if j := strings.Index((*dump)[i+1:], "."); j >= 0 {
+				f = genericMethod(p, (*dump)[:i], (*dump)[i+1:][:j], (*dump)[i+1:][j+1:])
+			}
+		}
+		if f == nil {
 			fmt.Println("not found")
 			os.Exit(2)
 		}
